@@ -262,26 +262,48 @@ pub fn run(ctx: &Ctx, rep: &mut Report) {
             log: Vec::new(),
         };
         let mut dead = false;
+        let mut window = false;
         for _ in 0..ops_per_universe {
             if dead {
                 break;
             }
-            if rng.chance(1, 25) {
+            // the gateway is upgraded to the same code; the migration follows a few operations later,
+            // with unit data or - if the migration wants data - with a list of every message the
+            // history knows (as an owner listing the messages in flight might do)
+            if !window && rng.chance(1, 25) {
                 let ga = w.g.addr.clone();
-                match w.u.upgrade_and_migrate(&ga) {
-                    Ok(()) => {
+                if w.u.upgrade_only(&ga).is_ok() {
+                    rep.count("migration-window-opened");
+                    rep.step("the gateway is upgraded to the same code: the migration window opens".into());
+                    window = true;
+                }
+            } else if window && rng.chance(1, 3) {
+                let ga = w.g.addr.clone();
+                let env = w.u.env.clone();
+                let known: Vec<MMessage> = w.contents.clone();
+                let mut list: soroban_sdk::Vec<axelar_gateway::types::Message> = soroban_sdk::Vec::new(&env);
+                for m in &known {
+                    list.push_back(axelar_gateway::types::Message {
+                        source_chain: sstr(&env, &m.source_chain),
+                        message_id: sstr(&env, &m.message_id),
+                        source_address: sstr(&env, &m.source_address),
+                        contract_address: addr_of(&env, &m.contract),
+                        payload_hash: soroban_sdk::BytesN::from_array(&env, &m.payload_hash),
+                    });
+                }
+                let empty: soroban_sdk::Vec<axelar_gateway::types::Message> = soroban_sdk::Vec::new(&env);
+                let cands: Vec<soroban_sdk::Val> = vec![soroban_sdk::IntoVal::into_val(&list, &env), soroban_sdk::IntoVal::into_val(&empty, &env)];
+                match w.u.migrate_only(&ga, &cands) {
+                    Ok(i) => {
                         rep.count("upgrade-and-migrate");
-                        rep.step("the gateway is upgraded to the same code and migrated".into());
-                        if let Some(d) = sweep(&mut w) {
-                            rep.violation("status-changed-by-upgrade-and-migrate", d);
-                            break;
-                        }
+                        rep.step(format!("migration (data candidate {}): the window closes", i));
                     }
-                    Err(e) => {
-                        rep.step(format!("upgrade and migrate -> {}", e));
-                        rep.foreign("upgrade-or-migrate-refused");
-                        break;
-                    }
+                    Err(e) => rep.step(format!("migrate -> {}", e)),
+                }
+                window = false;
+                if let Some(d) = sweep(&mut w) {
+                    rep.violation("status-changed-by-upgrade-and-migrate", d);
+                    break;
                 }
             }
             let k = rng.pick(&w.keys.clone()).clone();
@@ -353,6 +375,10 @@ pub fn run(ctx: &Ctx, rep: &mut Report) {
                     ));
                     let o = w.g.do_approve(&mut w.u, &batch, &plan);
                     rep.eval(&class, &format!("{}|n={}|dups={}|{}", class, n, batch.len() - dedup_keys(&batch), o.ok()), true);
+                    if !o.ok() && window {
+                        rep.count("note:valid-request-refused-while-migration-window-open");
+                        continue;
+                    }
                     if !o.ok() {
                         rep.foreign("honest-approval-refused");
                         dead = true;
@@ -511,6 +537,10 @@ pub fn run(ctx: &Ctx, rep: &mut Report) {
                         continue;
                     }
                     match &o.res {
+                        Err(_) if window => {
+                            rep.count("note:valid-request-refused-while-migration-window-open");
+                            continue;
+                        }
                         Err(e) => {
                             rep.violation(
                                 &format!("consume-call-failed:{}", class),
